@@ -412,6 +412,12 @@ static void codec_for(const uint64_t *vals, size_t n) {
                     if (gc != n || gmin != mn || gw != ref_bytes_of(mx - mn)) {
                         AFAIL("FOR.GetCount/GetMinValue/GetOffsetWidth", "metadata_untrue", "%s: count=%zu min=%" PRIu64 " width=%d", cur_desc, gc, gmin, gw);
                     }
+                    /* the size function applied to the metadata READ BACK from the record (the way a reader walks
+                     * from one record to the next) equals the bytes the encoder wrote */
+                    size_t rs = 0;
+                    if (LIBCALL("FOR.Size", "size of the read-back metadata", rs = varintFORSize(&rm)) && rs != wrote) {
+                        AFAIL("FOR.Size", "metadata_untrue", "%s: varintFORSize(metadata read back by ReadMetadata) = %zu, the encoder wrote %zu bytes (offsetWidth %d count %zu)", cur_desc, rs, wrote, (int)rm.offsetWidth, rm.count);
+                    }
                 }
             }
             if (M02) {
@@ -499,6 +505,12 @@ static void codec_pfor(const uint64_t *vals, size_t n) {
         uint64_t mn, mx;
         for_truth(vals, n, &mn, &mx);
         if (M16) {
+            /* the size predictor on the metadata read back from the frame bounds the frame like the one on the
+             * encoder's own metadata does */
+            size_t srm = 0, sem = 0;
+            if (LIBCALL("PFOR.Size", "size of the read-back metadata", (srm = varintPFORSize(&rm), sem = varintPFORSize(&em))) && (srm < wrote || srm != sem)) {
+                AFAIL("PFOR.Size", "metadata_untrue", "%s thr=%u: varintPFORSize(read-back metadata) = %zu, of the encoder's metadata %zu, the encoder wrote %zu bytes", cur_desc, thr[t], srm, sem, wrote);
+            }
             size_t want_hdr = (size_t)ref_tagged(mn, (uint8_t[16]){0}) + 1 + (size_t)ref_tagged(n, (uint8_t[16]){0});
             /* exceptions really stored = entries of the patch list */
             if (em.min != mn || em.count != n || rm.min != mn || rm.count != n || rm.width != em.width || rm.exceptionCount != em.exceptionCount || hdr != want_hdr) {
